@@ -13,6 +13,24 @@ func init() {
 
 // replayRun re-runs a recorded run case from its sources.
 func replayRun(e *emitter, c map[string]any) {
+	rc := runCaseOf(c)
+	out := runV1(rc)
+	carryOver(out, c)
+	e.emit(out)
+}
+
+// carryOver copies the recorded case's annotations (everything the re-run did not produce itself:
+// strictness, keys, C10/C14 flags, the uninterrupted run's trace, …) onto the fresh result
+func carryOver(out, c map[string]any) {
+	for k, v := range c {
+		if _, ok := out[k]; !ok && k != "_reply" && k != "id" && k != "death" && k != "parse_death" && k != "stderr" {
+			out[k] = v
+		}
+	}
+}
+
+// runCaseOf rebuilds the input of a recorded run case
+func runCaseOf(c map[string]any) runCase {
 	rc := runCase{}
 	if ss, ok := c["scripts"].([]any); ok {
 		for _, s := range ss {
@@ -47,13 +65,7 @@ func replayRun(e *emitter, c map[string]any) {
 		rc.SigK = int(k)
 	}
 	rc.HasSig, _ = c["hassig"].(bool)
-	out := runV1(rc)
-	for _, k := range []string{"strict", "key", "prop", "gen"} {
-		if v, ok := c[k]; ok {
-			out[k] = v
-		}
-	}
-	e.emit(out)
+	return rc
 }
 
 func fieldFromRender(k, r string) fieldSpec {
